@@ -158,6 +158,41 @@ def size_contract(op, args, toks):
     return None
 
 
+def _uleb(bs, p):
+    v = sh = 0
+    while p < len(bs):
+        b = bs[p]
+        p += 1
+        v |= (b & 0x7F) << sh
+        if not b & 0x80:
+            return v, p
+        sh += 7
+    return None, p
+
+
+def fault_name(op, ln, f):
+    """Specific named predicate of the faulting input where one is known, else the sanitizer frame."""
+    toks = ln.split(" ")
+    try:
+        if op == "lvlp_dec":
+            bs = E.unhex_list(toks[4])
+            if len(bs) >= 4 and int.from_bytes(bytes(bs[:4]), "little") >= 0xFFFFFFFC:
+                return "rle-levels-prefixed:length-prefix-wraps-uint32:" + f.kind
+        if op in ("d32_dec", "d64_dec", "dl_dec", "ds_dec"):
+            bs = E.unhex_list(toks[-1])
+            bsz, p = _uleb(bs, 0)
+            m, p = _uleb(bs, p)
+            if bsz and m and (bsz % m or (bsz // m) % 8):
+                return "delta-dec:miniblock-size-not-multiple-of-8-over-read:" + f.kind
+        if op == "dict_dec":
+            idx = E.unhex_list(toks[5])
+            if idx and idx[0] >= 32:
+                return "dict-dec:index>=2^31-passes-signed-range-check:" + f.kind
+    except (ValueError, IndexError):
+        pass
+    return "enc-dec:%s:%s" % (op, f.signature())
+
+
 def run_part(chk, tier):
     binary = common.build_harness(E.HARNESS)
     thorough = tier != "quick"
@@ -168,7 +203,7 @@ def run_part(chk, tier):
     chk.add_tlc(r)
     inputs = [c for c in r.cases if c.get("kind") == "fuzz"]
     rng = random.Random(common.seed() * 7919 + 11)
-    nrand = 6000 if thorough else 1200
+    nrand = 6000 if thorough else 600
     for _ in range(nrand):
         ln = rng.choice((1, 2, 3, 4, 5, 8, 13, 21, 34, 64, 130))
         inputs.append({"kind": "fuzz", "o": "random", "bytes": [rng.randrange(256) if rng.random() < 0.7 else rng.choice((0, 1, 2, 3, 0x80, 0xFF, 0x7F)) for _ in range(ln)], "tags": []})
@@ -178,7 +213,9 @@ def run_part(chk, tier):
         bs = c["bytes"]
         if c["o"] in ("alpha", "random"):
             # every 256 bit widths are swept across the inputs; each input also meets the boundary widths
-            ls = hybrid_lines(cid, bs, i) + other_lines(cid, bs, i) + bitunpack_lines(cid, bs, i)
+            ls = hybrid_lines(cid, bs, i)
+            if thorough or i % 2 == 0 or c["o"] == "random":
+                ls += other_lines(cid, bs, i) + bitunpack_lines(cid, bs, i)
         else:
             ls = seed_family_lines(cid, c, i)
         for ln in ls:
@@ -234,7 +271,7 @@ def run_part(chk, tier):
     for f in faults:
         ln = by_id.get(f.case_id, f.case_id)
         op = ln.split(" ")[1] if " " in ln else "?"
-        chk.violation("enc-dec:%s:%s" % (op, f.signature()), "%s on input line: %s" % (f.signature(), ln[:300]),
+        chk.violation(fault_name(op, ln, f), "%s on input line: %s" % (f.signature(), ln[:300]),
                       {"line": ln, "stderr": getattr(f, "stderr", "")[-2500:]})
     for lid in leaky:
         ln = by_id.get(lid, lid)
